@@ -1245,30 +1245,53 @@ func ReadFields(cfg *Config, s string, n int, raw bool) []string {
 	}
 	var fpos []pos
 
+	// First, remove backslash escapes, remembering which characters were
+	// escaped, as those never act as field separators.
 	runes := make([]rune, 0, len(s))
-	infield := false
+	escaped := make([]bool, 0, len(s))
 	esc := false
 	for _, r := range s {
-		if infield {
-			if cfg.ifsRune(r) && (raw || !esc) {
-				fpos[len(fpos)-1].end = len(runes)
-				infield = false
-			}
-		} else {
-			if !cfg.ifsRune(r) && (raw || !esc) {
-				fpos = append(fpos, pos{start: len(runes), end: -1})
-				infield = true
-			}
-		}
-		if r == '\\' {
-			if raw || esc {
-				runes = append(runes, r)
-			}
-			esc = !esc
+		if r == '\\' && !raw && !esc {
+			esc = true
 			continue
 		}
 		runes = append(runes, r)
+		escaped = append(escaped, esc)
 		esc = false
+	}
+	sep := func(i int) bool { return !escaped[i] && cfg.ifsRune(runes[i]) }
+
+	// Split like the shell splits fields: IFS whitespace delimits non-empty
+	// fields, and every other IFS character, together with any IFS whitespace
+	// around it, delimits a field even if that field is empty.
+	infield := false
+	wsEnded := false // the last field was ended by IFS whitespace only, so far
+	for i, r := range runes {
+		switch {
+		case !sep(i):
+			if !infield {
+				fpos = append(fpos, pos{start: i, end: -1})
+				infield = true
+			}
+			wsEnded = false
+		case cfg.ifsWhitespace(r):
+			if infield {
+				fpos[len(fpos)-1].end = i
+				infield = false
+				wsEnded = true
+			}
+		default:
+			switch {
+			case infield:
+				fpos[len(fpos)-1].end = i
+				infield = false
+			case wsEnded:
+				// part of the delimiter which ended the previous field
+			default:
+				fpos = append(fpos, pos{start: i, end: i}) // an empty field
+			}
+			wsEnded = false
+		}
 	}
 	if len(fpos) == 0 {
 		return nil
@@ -1277,22 +1300,14 @@ func ReadFields(cfg *Config, s string, n int, raw bool) []string {
 		fpos[len(fpos)-1].end = len(runes)
 	}
 
-	switch {
-	case n == 1:
-		// The single field spans the whole line minus leading and trailing
-		// IFS whitespace; anything outside the fields is already IFS.
-		lo, hi := 0, len(runes)
-		for lo < fpos[0].start && cfg.ifsWhitespace(runes[lo]) {
-			lo++
-		}
-		for hi > fpos[len(fpos)-1].end && cfg.ifsWhitespace(runes[hi-1]) {
+	if n != -1 && n > 0 && n < len(fpos) {
+		// More fields than variables: the last one gets the rest of the
+		// line as is, minus any trailing IFS whitespace.
+		hi := len(runes)
+		for hi > fpos[n-1].start && !escaped[hi-1] && cfg.ifsWhitespace(runes[hi-1]) {
 			hi--
 		}
-		fpos[0].start, fpos[0].end = lo, hi
-		fpos = fpos[:1]
-	case n != -1 && n < len(fpos):
-		// combine to max n fields
-		fpos[n-1].end = fpos[len(fpos)-1].end
+		fpos[n-1].end = hi
 		fpos = fpos[:n]
 	}
 
